@@ -1328,8 +1328,7 @@ def setup(ctx):
     )
     ctx.assumptions += [
         "base names contain no '__' (structural names render injectively)",
-        "base stoichiometries are integers; rate functions are pure functions of their arguments",
-        "non-negative map indices and query positions (negative Python indices are not modelled)",
+        "rate functions are pure functions of their arguments; an unmapped reaction written with fractional / Derived coefficients is compared as written, not numerically",
         "compound names are identifiers (no regular-expression metacharacters: get_isotopomers_of_at_position matches by regex)",
         "float rounding not modelled: integer states and + - * rate laws, compared exactly",
     ]
